@@ -122,11 +122,28 @@ func rewriteToks(ts []tok) (string, error) {
 			} else if isClose(ts[i].tok) {
 				d--
 			} else if d == 0 && ts[i].tok == tCOLONCOLON {
-				binders := joinToks(ts[1:i])
 				body, err := rewriteToks(ts[i+1:])
 				if err != nil {
 					return "", err
 				}
+				// bounded form (executable):  forall i in range(lo, hi) :: P
+				if i >= 6 && ts[2].tok == token.IDENT && ts[2].lit == "in" && ts[3].tok == token.RANGE && ts[4].tok == token.LPAREN && ts[i-1].tok == token.RPAREN {
+					inner := ts[5 : i-1]
+					c := findTop(inner, token.COMMA, false)
+					if c < 0 {
+						return "", fmt.Errorf("range(lo, hi) expected in quantifier")
+					}
+					lo, err := rewriteToks(inner[:c])
+					if err != nil {
+						return "", err
+					}
+					hi, err := rewriteToks(inner[c+1:])
+					if err != nil {
+						return "", err
+					}
+					return fmt.Sprintf("verif_%sRange(%s, %s, func(%s int) bool { return %s })", ts[0].lit, lo, hi, ts[1].lit, body), nil
+				}
+				binders := joinToks(ts[1:i])
 				return fmt.Sprintf("verif_%s(func(%s) bool { return %s })", ts[0].lit, binders, body), nil
 			}
 		}
@@ -219,6 +236,9 @@ func rewriteToks(ts []tok) (string, error) {
 			if r, ok := identRename[lit]; ok && i+1 < len(ts) && (ts[i+1].tok == token.LPAREN || ts[i+1].tok == token.LBRACK) &&
 				(i == 0 || ts[i-1].tok != token.PERIOD) {
 				lit = r
+			}
+			if lit == "rangeidx" && (i == 0 || ts[i-1].tok != token.PERIOD) {
+				lit = "verif_rangeidx"
 			}
 		}
 		sb.WriteString(lit)
